@@ -9,7 +9,10 @@ transcription `C19.Url.parse` the model runs on (a difference is reported as a m
 -/
 open B DriverUtil C16
 
-def tokGen (n : Nat) : Bytes := b "t" ++ natToDec (n + 1)
+/-- the harness' KeyGenerator: `t<n>`, padded with `x` to `kg` bytes -/
+def tokGen (kg : Nat) (n : Nat) : Bytes :=
+  let t := b "t" ++ natToDec (n + 1)
+  t ++ List.replicate (kg - t.length) 120
 def sidGen (n : Nat) : Bytes := b "s" ++ natToDec (n + 1)
 
 def hx (s : String) : Except String Bytes :=
@@ -106,14 +109,14 @@ def renderResp (mem : Bool) (cfg : Cfg) (st : St) (r : Resp) : String :=
   s!"{plusList r.gens},{plusList r.sgens},{firedStr r},{if r.early then 1 else 0},{renderLive mem cfg st}," ++
   renderAttrs (respAttrs cfg st.now r)
 
-def runModel (mem : Bool) (cfg : Cfg) : St → List Op → List String
+def runModel (mem : Bool) (kg : Nat) (cfg : Cfg) : St → List Op → List String
   | _, [] => []
   | st, o :: os =>
     match o with
-    | .adv d => "-" :: runModel mem cfg { st with now := st.now + d } os
+    | .adv d => "-" :: runModel mem kg cfg { st with now := st.now + d } os
     | .req q =>
-      let (st', r) := handle cfg tokGen sidGen st q
-      renderResp mem cfg st' r :: runModel mem cfg st' os
+      let (st', r) := handle cfg (tokGen kg) sidGen st q
+      renderResp mem cfg st' r :: runModel mem kg cfg st' os
 
 def parseLive (s : String) : Except String (Option (List LiveItem)) := do
   if s == "?" then return none
@@ -192,8 +195,15 @@ def cookiePathOK (s : Bytes) : Bool :=
   (s.all fun c => isAlpha c || isDigit c || c == 47) && (indexOf s (b "//")).isNone
 
 /-- the front field: ErrorHandler mode, Next, cookie fields -/
-def parseFront (s : String) : Except String ((Err → Nat) × Option (Req → Bool) × CookieCfg × String) := do
-  match (s.splitOn ";").map (·.splitOn "=") with
+def parseFront (s : String) : Except String ((Err → Nat) × Option (Req → Bool) × CookieCfg × String × Nat) := do
+  let parts := (s.splitOn ";").map (·.splitOn "=")
+  let (parts, kg) ← (match parts with
+    | [a, b', c, ["kg", k]] =>
+      (match k.toNat? with
+       | some n => if n == 0 || n == 256 || n == 512 then pure ([a, b', c], n) else throw "outside-domain: token length"
+       | none => throw "outside-domain: token length")
+    | _ => pure (parts, 0))
+  match parts with
   | [["eh", eh], ["next", nx], ["ck", ck]] =>
     let ehf : Err → Nat ← (match eh with
       | "d" => pure (fun (_ : Err) => (403 : Nat)) | "c" => pure ehCustom | "n" => pure (fun (_ : Err) => (200 : Nat))
@@ -211,7 +221,7 @@ def parseFront (s : String) : Except String ((Err → Nat) × Option (Req → Bo
                                 sameSite := ← hx ss, domain := ← hx dom, path := ← hx path }
         if !(cookieTextOK cc.sameSite && cookieTextOK cc.domain && cookiePathOK cc.path) then
           throw "outside-domain: cookie field alphabet"
-        pure (ehf, nxf, cc, eh)
+        pure (ehf, nxf, cc, eh, kg)
       | _ => throw "outside-domain: cookie flags"
     | _ => throw "outside-domain: cookie fields"
   | _ => throw "outside-domain: front field"
@@ -219,7 +229,7 @@ def parseFront (s : String) : Except String ((Err → Nat) × Option (Req → Bo
 def handleCase (f : List String) : Except String Verdict := do
   match f with
   | [id, be, ext, single, idle, trusted, front, ops, uf, impl] =>
-    let (ehf, nxf, cc, ehm) ← parseFront front
+    let (ehf, nxf, cc, ehm, kg) ← parseFront front
     let some ext := extOf ext | throw "outside-domain: extractor"
     let (backend, mem) ← match be with
       | "st" => pure (Backend.storage, false) | "mem" => pure (Backend.storage, true)
@@ -261,7 +271,7 @@ def handleCase (f : List String) : Except String Verdict := do
     | some (os, ss) =>
       let cfg : Cfg := { backend := backend, ext := ext, single := single == "1", idle := idle, origins := os, subs := ss,
                          eh := ehf, next := nxf, cookie := cc }
-      let mo := runModel mem cfg {} opl
+      let mo := runModel mem kg cfg {} opl
       let modelObs := if mo.isEmpty then "-" else ";".intercalate mo
       let (spec, tags) ←
         if impl == "panic" then pure (some "constructor-panicked-on-valid-config", ([] : List String))
@@ -271,7 +281,7 @@ def handleCase (f : List String) : Except String Verdict := do
           if obsl.length != opl.length then pure (some "observation-count", [])
           else pure (specRun (specConfig backend ext (single == "1") idle raw nxf cc ehf) specInit opl obsl, specTags cfg opl obsl)
       let ot := (if ss.isEmpty then [] else ["cfg-wildcard"]) ++ (if os.isEmpty then [] else ["cfg-exact"]) ++
-        ["eh-" ++ ehm] ++ (if nxf.isSome then ["next-set"] else []) ++ (if cc == {} then [] else ["cookie-fields"])
+        ["eh-" ++ ehm] ++ (if kg == 0 then [] else ["long-tokens"]) ++ (if nxf.isSome then ["next-set"] else []) ++ (if cc == {} then [] else ["cookie-fields"])
       pure { id := id, modelObs := obsM modelObs, implObs := impl, spec := spec, tags := [be, toString (repr ext)] ++ tags ++ ot }
   | _ => throw s!"outside-domain: expected 10 fields, got {f.length}"
 
